@@ -14,7 +14,7 @@ THEOREMS = [
     "Cog.C02.C02_counterexample_exponent_literal", "Cog.C02.C02_counterexample_field_collision",
     "Cog.C02.C02_errors_counterexample",
 ]
-FILES = HARNESS_BASE + ["lab_*.go", "src_*.go", "c02_*.go"]
+FILES = HARNESS_BASE + ["lab_*.go", "src_*.go", "c02_*.go", "c05_virdec.go"]   # c05_virdec.go: VIR decoder for --replay of pydecl cases
 
 
 # Known findings of C02 live in /verif/known_findings.json only (44 entries merged by the coordinator):
@@ -26,6 +26,9 @@ FILES = HARNESS_BASE + ["lab_*.go", "src_*.go", "c02_*.go"]
 STATS = collections.Counter()
 SHRUNK = [0]
 HYP = collections.Counter()
+PY = collections.Counter()
+PYHYP = collections.Counter()
+PY_PROPOSED = os.path.join(VERIF, "checks", "c02.pydecl.proposed_findings.json")
 
 
 def split_model(m):
@@ -33,9 +36,46 @@ def split_model(m):
     return (p[0], p[1] if len(p) > 1 else "", p[2] if len(p) > 2 else "", p[3] if len(p) > 3 else "")
 
 
+def reconcile_py(req, impl, model):
+    """pydecl rows: CPython's verdict on models/<pkg>.py (compile + fresh import) and the module text against the
+    model's verdict (checker on the module and the sibling modules it imports) and rendering (exact text)."""
+    iv, _, itext = impl.partition(" ")
+    p = (model.split(" ", 4) + [""] * 5)[:5]
+    mv, mdiag, mhyp, mlint, mtext = p
+    iok = iv == "ok"
+    PY["modules"] += 1
+    PY["cpython-" + ("accepts" if iok else "rejects")] += 1
+    PYHYP[(mhyp, mlint, "accepts" if iok else "rejects:" + iv.split(":")[0])] += 1
+    if mv == "unmodelled":
+        PY["model-unmodelled:" + mdiag[:60]] += 1
+        return "unmodelled", "unmodelled"
+    if mv == "crash":
+        return "run-succeeded", "crash " + mdiag
+    if mv not in ("ok", "illformed"):
+        return impl[:200], "bad-model-reply " + model[:200]
+    if mhyp == "hyp:ok" and not iok and mlint != "lint:import-cycle":
+        # an instance of C02_py_declarations_wellformed_partial that CPython refutes: the checker is too weak
+        return "impl:" + iv, "theorem-instance-refuted hyp:ok model:" + mv
+    if itext != mtext:
+        k = 0
+        while k < min(len(itext), len(mtext)) and itext[k] == mtext[k]:
+            k += 1
+        return "text@%d:%s" % (k, itext[max(0, k - 60):k + 80]), "text@%d:%s" % (k, mtext[max(0, k - 60):k + 80])
+    if mlint == "lint:import-cycle":
+        # CPython's verdict on mutually importing modules depends on which one is imported first: outside the checker
+        PY["import-cycle-not-compared"] += 1
+        return "agree", "agree"
+    if iok != (mv == "ok"):
+        return "verdict:" + iv, "verdict:" + mv + ":" + mdiag
+    PY["agree-" + mv] += 1
+    return "agree", "agree"
+
+
 def reconcile(req, impl, model):
     """godecl rows: the Go type checker's verdict on the declaration fragment and the fragment's text
     (white space removed) against the model's verdict and rendering."""
+    if req.startswith("pydecl "):
+        return reconcile_py(req, impl, model)
     if not req.startswith("godecl "):
         return impl, model
     iv, _, itext = impl.partition(" ")
@@ -98,12 +138,52 @@ def main():
             c.known += [f for f in pj.get("findings", []) if f.get("property") == "C02" and f["id"] not in have]
         except (OSError, ValueError) as e:
             log("proposed findings ignored:", e)
+    if os.path.exists(PY_PROPOSED):
+        # finding candidates of the Python declaration fragment, until the coordinator merges them
+        have = {f["id"] for f in c.known}
+        c.known += [f for f in json.load(open(PY_PROPOSED)).get("findings", []) if f.get("property") == "C02" and f["id"] not in have]
     quick = c.tier == "quick"
     seed = c.seed
 
     if c.replay:
         rp = json.load(open(c.replay))
         print(json.dumps({k: (v if not isinstance(v, str) else v[:3000]) for k, v in rp.items()}, indent=1)[:8000])
+        if rp.get("stream") == "c02-pydecl" or str(rp.get("request", "")).startswith("pydecl "):
+            # Python declaration fragment: regenerate the case (deterministic in seed / tier / index) or take the VIR
+            kw = {k: v for k, v in (rp.get("args") or {}).items() if k in ("seed", "tier", "profile")}
+            cid = (rp.get("request", "pydecl replay x").split(" ") + ["", ""])[1]
+            path = None
+            if rp.get("vir"):
+                path = os.path.join(WORK, "c02-pyreplay-%d.vir" % os.getpid())
+                open(path, "w").write(rp["vir"] + "\n")
+                kw["file"] = path
+                cid = "replay"
+            elif re.match(r"i\d+$", cid):
+                kw.update(**{"from": int(cid[1:]), "n": 1, "nsrc": 0})
+            elif re.match(r"s\d+", cid):
+                kw.update(**{"from": int(re.match(r"s(\d+)", cid).group(1)), "n": 0, "nsrc": 1})
+            else:
+                kw.update(n=0, nsrc=0)
+            try:
+                rows = harness(hb, "c02-pydecl", timeout=1800, **kw)
+            finally:
+                if path:
+                    os.remove(path)
+            reqs = [r[0] for r in rows if r[0] != "-"]
+            bad = False
+            for r, m in zip([r for r in rows if r[0] != "-"], drv(reqs)):
+                if not r[0].startswith("pydecl %s " % cid):
+                    continue
+                a, b = reconcile_py(r[0], r[1], m)
+                print(r[0], "| cpython:", r[1].split(" ")[0], "| model:", " ".join(m.split(" ")[:4]), "| oracle:", r[2][:300])
+                print(r[1].partition(" ")[2].replace("\\n", "\n")[:3000])
+                if a != b:
+                    print("DISAGREEMENT impl=%s model=%s" % (a[:300], b[:300]))
+                    bad = True
+                if r[2].startswith("FAIL"):
+                    bad = True
+            print("replay: the recorded failure %s" % ("REPRODUCES" if bad else "does not reproduce"))
+            sys.exit(1 if bad else 0)
         v = rp.get("oracle", "")
         m = re.search(r"lang=(\S+) class=(\S+) trig=\S* format=(\S+) (go=\S+ union=\S+ builders=\S+ converters=\S+ apiref=\S+ marshal=\S+ skiprt=\S+) src=(\(defs .*?\)) (?:diag|hits)=", v)
         if m and m.group(3) != "ir" and "+" not in m.group(3):
@@ -162,7 +242,9 @@ def main():
                    ("c02-lab", dict(n=8, seed=seed, tier="quick")),
                    ("c02-langs", dict(n=6, seed=seed, tier="quick")),
                    ("c02-ir", dict(n=16, seed=seed, tier="quick")),
-                   ("c02-ir", dict(n=8, seed=seed, tier="quick", profile="raw"))]
+                   ("c02-ir", dict(n=8, seed=seed, tier="quick", profile="raw")),
+                   ("c02-pydecl", dict(n=120, nsrc=40, seed=seed, tier="quick")),
+                   ("c02-pydecl", dict(n=60, nsrc=0, seed=seed, tier="quick", profile="raw"))]
     else:
         streams = [("c02-known", {}),
                    ("c02-mini", dict(seed=seed, tier="thorough")),
@@ -173,7 +255,9 @@ def main():
                    ("c02-lab", dict(n=100, seed=seed + 100, tier="thorough", builders=1)),
                    ("c02-langs", dict(n=200, seed=seed, tier="thorough")),
                    ("c02-ir", dict(n=500, seed=seed, tier="thorough")),
-                   ("c02-ir", dict(n=300, seed=seed, tier="thorough", profile="raw"))]
+                   ("c02-ir", dict(n=300, seed=seed, tier="thorough", profile="raw")),
+                   ("c02-pydecl", dict(n=1500, nsrc=400, seed=seed, tier="thorough")),
+                   ("c02-pydecl", dict(n=600, nsrc=0, seed=seed, tier="thorough", profile="raw"))]
     notes = []
     for name, kw in streams:
         t0 = time.time()
@@ -184,7 +268,7 @@ def main():
             continue
         label = name + ("-raw" if kw.get("profile") == "raw" else "") + ("-builders" if kw.get("builders") else "")
         c.correspond(hb, label, rows=rows, reconcile=reconcile, classify=classify, shrink=shrink,
-                     nontrivial=lambda r: r[0].startswith("godecl ") or (len(r) > 2 and r[2].startswith("FAIL")))
+                     nontrivial=lambda r: r[0].startswith("godecl ") or r[0].startswith("pydecl ") or (len(r) > 2 and r[2].startswith("FAIL")))
         for r in rows:
             if r[0] == "-" and (r[1].startswith("stats") or r[1].startswith("raw-profile")):
                 notes.append("%s: %s" % (label, r[1][:1500]))
@@ -192,6 +276,10 @@ def main():
         c.cov["streams"][label]["args"] = kw
     c.cov["model"] = dict(STATS)
     c.cov["hypotheses_vs_compiler"] = {"%s / fragment %s" % k: v for k, v in sorted(HYP.items(), key=lambda x: -x[1])}
+    c.cov["python_declaration_fragment"] = dict(PY)
+    c.cov["python_hypotheses_vs_cpython"] = {"%s %s / cpython %s" % k: v for k, v in sorted(PYHYP.items(), key=lambda x: -x[1])}
+    c.oblige("python declaration fragment: modules compared with the model (text and CPython verdict), some under the theorem's hypotheses",
+             PY["agree-ok"] > 0 and any(k[0] == "hyp:ok" for k in PYHYP), str(dict(PY))[:400])
     c.cov["lab"] = notes
     c.cov["proved_vs_explored"] = {
         "proved": "Go declaration fragment (types.go / rawtypes.go / tools.go): C02_go_decls_partial, C02_placeholder_iff",
